@@ -65,9 +65,18 @@ type (
 		// sleep between parsing the tag definitions and running the searches (known finding tag-inline-reftime)
 		TagDelayMS int `json:"tagdelay_ms"`
 	}
+	verifC02SelOp struct {
+		Sqs  []int    `json:"sqs"`
+		Forb [][]uint `json:"forb"`
+	}
+	verifC02SelCase struct {
+		Init [][]uint        `json:"init"`
+		Ops  []verifC02SelOp `json:"ops"`
+	}
 	verifC02Cases struct {
-		Base int64         `json:"base"` // unix seconds
-		Pops []verifC02Pop `json:"pops"`
+		Base int64             `json:"base"` // unix seconds
+		Pops []verifC02Pop     `json:"pops"`
+		Sel  []verifC02SelCase `json:"sel"`
 	}
 )
 
@@ -293,6 +302,76 @@ func TestVerifC02(t *testing.T) {
 		}
 		os.RemoveAll(dir)
 	}
+	for ci, c := range cases.Sel {
+		p := func() (p interface{}) {
+			defer func() { p = recover() }()
+			verifC02Sel(w, ci, c)
+			return nil
+		}()
+		if p != nil {
+			fmt.Fprintf(w, "L %d PANIC %v\n", ci, p)
+		}
+		w.Flush()
+	}
+}
+
+// verifC02Sel runs subQuerySelection.remove sequences and prints, after every remove, whether the selection is
+// empty and which combinations of sub-query result positions it still allows.
+func verifC02Sel(w *bufio.Writer, ci int, c verifC02SelCase) {
+	name := func(i int) string { return fmt.Sprintf("s%d", i) }
+	m := map[string]bitmask.ConnectedBitmask{}
+	for i, set := range c.Init {
+		bm := bitmask.ConnectedBitmask{}
+		for _, x := range set {
+			bm.Set(x)
+		}
+		m[name(i)] = bm
+	}
+	sqs := subQuerySelection{remaining: []map[string]bitmask.ConnectedBitmask{m}}
+	fmt.Fprintf(w, "L %d", ci)
+	for _, op := range c.Ops {
+		names := []string(nil)
+		forb := []*bitmask.ConnectedBitmask(nil)
+		for i, sq := range op.Sqs {
+			names = append(names, name(sq))
+			bm := bitmask.ConnectedBitmask{}
+			for _, x := range op.Forb[i] {
+				bm.Set(x)
+			}
+			forb = append(forb, &bm)
+		}
+		sqs.remove(names, forb)
+		combos := map[string]struct{}{}
+		for _, rem := range sqs.remaining {
+			cur := []string{""}
+			for i := range c.Init {
+				bm := rem[name(i)]
+				next := []string(nil)
+				for _, pre := range cur {
+					for x := uint(0); x < uint(bm.Len()); x++ {
+						if bm.IsSet(x) {
+							next = append(next, fmt.Sprintf("%s.%d", pre, x))
+						}
+					}
+				}
+				cur = next
+			}
+			for _, x := range cur {
+				combos[x] = struct{}{}
+			}
+		}
+		l := []string(nil)
+		for x := range combos {
+			l = append(l, x)
+		}
+		sort.Strings(l)
+		e := 0
+		if sqs.empty() {
+			e = 1
+		}
+		fmt.Fprintf(w, " %d:%s", e, strings.Join(l, ","))
+	}
+	fmt.Fprintf(w, "\n")
 }
 
 func verifC02DumpPop(mw *bufio.Writer, pi int, base time.Time, readers []*Reader) {
@@ -385,6 +464,64 @@ func verifC02DumpSearch(mw *bufio.Writer, pi, si int, readers []*Reader, tagDeta
 	if len(qs) != 0 {
 		qs = qs.InlineTagFilters(tagDetails)
 	}
+	// Sub-queries are evaluated first, exactly as the loop in SearchStreams does it (no sorting, no limit, no
+	// id restriction); their results are the previousResults of the main query.  The model is fed with the
+	// parts of every (sub-)query compiled against the results of the sub-queries evaluated before it.
+	allResults := map[string]resultData{}
+	subEmpty := false
+	subDump := strings.Builder{}
+	nsubs := 0
+	if len(qs) != 0 {
+		for _, subQuery := range qs.SubQueries() {
+			if subQuery == "" {
+				continue
+			}
+			results := resultData{matchingQueryPart: make([]bitmask.ConnectedBitmask, len(qs))}
+			for idxIdx := len(readers) - 1; idxIdx >= 0; idxIdx-- {
+				idx := readers[idxIdx]
+				queryParts := make([]queryPart, 0, len(qs))
+				for qID := range qs {
+					qp, err := idx.buildSearchObjects(subQuery, qID, allResults, q.ReferenceTime, &qs[qID], readers[idxIdx+1:], nil, tagDetails, converters)
+					if err != nil {
+						fmt.Fprintf(mw, "X %d %d\n", pi, si)
+						return
+					}
+					queryParts = append(queryParts, qp)
+				}
+				if err := idx.searchStreams(context.Background(), &results, allResults, queryParts, nil, nil, 0, nil); err != nil {
+					fmt.Fprintf(mw, "X %d %d\n", pi, si)
+					return
+				}
+			}
+			nsubs++
+			fmt.Fprintf(&subDump, "sub %s %d", subQuery, len(results.streams))
+			for _, st := range results.streams {
+				fidx := -1
+				for i, r := range readers {
+					if r == st.r {
+						fidx = i
+					}
+				}
+				fmt.Fprintf(&subDump, " %d.%d", fidx, st.index)
+			}
+			fmt.Fprintf(&subDump, "\n")
+			for qID := range qs {
+				fmt.Fprintf(&subDump, "mp")
+				for pos := range results.streams {
+					if results.matchingQueryPart[qID].IsSet(uint(pos)) {
+						fmt.Fprintf(&subDump, " %d", pos)
+					}
+				}
+				fmt.Fprintf(&subDump, "\n")
+			}
+			verifC02DumpParts(&subDump, subQuery, readers, qs, allResults, q, tagDetails, converters, false)
+			if len(results.streams) == 0 {
+				subEmpty = true
+				break
+			}
+			allResults[subQuery] = results
+		}
+	}
 	fmt.Fprintf(mw, "Q %d %d\n", pi, si)
 	fmt.Fprintf(mw, "sort %d", len(sr.Sort))
 	for _, s := range sr.Sort {
@@ -407,19 +544,38 @@ func verifC02DumpSearch(mw *bufio.Writer, pi, si int, readers []*Reader, tagDeta
 		fmt.Fprintf(mw, "\n")
 	}
 	fmt.Fprintf(mw, "parts %d\n", len(qs))
+	main := strings.Builder{}
+	verifC02DumpParts(&main, "", readers, qs, allResults, q, tagDetails, converters, subEmpty)
+	mw.WriteString(main.String())
+	fmt.Fprintf(mw, "subs %d\n", nsubs)
+	mw.WriteString(subDump.String())
+}
+
+// verifC02DumpParts writes, for every file and every part, what buildSearchObjects compiles for (sub-)query
+// subQuery given the results of the sub-queries evaluated so far: possible, lookups, and the truth table of the
+// filters, each stream evaluated with a fresh searchContext exactly as filterAndAddToResult creates it.
+func verifC02DumpParts(w *strings.Builder, subQuery string, readers []*Reader, qs query.ConditionsSet, allResults map[string]resultData, q *query.Query, tagDetails map[string]query.TagDetails, converters map[string]ConverterAccess, dead bool) {
 	for _, r := range readers {
 		n := r.StreamCount()
 		for qID := range qs {
-			qp, err := r.buildSearchObjects("", qID, map[string]resultData{}, q.ReferenceTime, &qs[qID], nil, nil, tagDetails, converters)
+			qp, err := r.buildSearchObjects(subQuery, qID, allResults, q.ReferenceTime, &qs[qID], nil, nil, tagDetails, converters)
 			if err != nil {
-				fmt.Fprintf(mw, "qperr\n")
+				fmt.Fprintf(w, "qperr\n")
 				continue
 			}
+			// a sub-query without results ends the search; a part none of whose sub-query results matched the
+			// same part is skipped for every stream
+			partDead := dead
+			for _, v := range allResults {
+				if v.matchingQueryPart[qID].IsZero() {
+					partDead = true
+				}
+			}
 			poss := 0
-			if qp.possible {
+			if qp.possible && !dead {
 				poss = 1
 			}
-			fmt.Fprintf(mw, "qp %d %d\n", poss, len(qp.lookups))
+			fmt.Fprintf(w, "qp %d %d\n", poss, len(qp.lookups))
 			for _, l := range qp.lookups {
 				idxs, err := l()
 				if err != nil {
@@ -427,21 +583,29 @@ func verifC02DumpSearch(mw *bufio.Writer, pi, si int, readers []*Reader, tagDeta
 				}
 				idxs = append([]uint32(nil), idxs...)
 				sort.Slice(idxs, func(i, j int) bool { return idxs[i] < idxs[j] })
-				fmt.Fprintf(mw, "l %d", len(idxs))
+				fmt.Fprintf(w, "l %d", len(idxs))
 				for _, x := range idxs {
-					fmt.Fprintf(mw, " %d", x)
+					fmt.Fprintf(w, " %d", x)
 				}
-				fmt.Fprintf(mw, "\n")
+				fmt.Fprintf(w, "\n")
 			}
-			fmt.Fprintf(mw, "flt")
+			fmt.Fprintf(w, "flt")
 			for i := 0; i < n; i++ {
 				s, err := r.streamByIndex(uint32(i))
 				if err != nil {
 					panic(err)
 				}
-				ok := true
+				ok := !partDead
+				tmp := map[string]bitmask.ConnectedBitmask{}
+				for k, v := range allResults {
+					tmp[k] = v.matchingQueryPart[qID].Copy()
+				}
+				sc := &searchContext{allowedSubQueries: subQuerySelection{remaining: []map[string]bitmask.ConnectedBitmask{tmp}}}
 				for _, f := range qp.filters {
-					m, err := f(&searchContext{}, s)
+					if !ok {
+						break
+					}
+					m, err := f(sc, s)
 					if err != nil {
 						panic(err)
 					}
@@ -451,12 +615,12 @@ func verifC02DumpSearch(mw *bufio.Writer, pi, si int, readers []*Reader, tagDeta
 					}
 				}
 				if ok {
-					fmt.Fprintf(mw, " 1")
+					fmt.Fprintf(w, " 1")
 				} else {
-					fmt.Fprintf(mw, " 0")
+					fmt.Fprintf(w, " 0")
 				}
 			}
-			fmt.Fprintf(mw, "\n")
+			fmt.Fprintf(w, "\n")
 		}
 	}
 }
